@@ -337,6 +337,8 @@ def write_evidence(ctx, proof, run, verdict, wall):
         "violations": verdict["violations"],
     }
     ev["coverage"].update(run.get("extra", {}))
-    os.makedirs(os.path.join(ROOT, "evidence"), exist_ok=True)
-    with open(os.path.join(ROOT, "evidence", f"{ctx.prop}.json"), "w") as f:
+    # runs against a scratch worktree (BV_REPO) are tests of the machinery, not evidence
+    evdir = os.path.join(ROOT, "evidence") if REPO == "/repo" else os.path.join(ROOT, "work", "evidence_scratch")
+    os.makedirs(evdir, exist_ok=True)
+    with open(os.path.join(evdir, f"{ctx.prop}.json"), "w") as f:
         json.dump(ev, f, indent=1)
